@@ -254,7 +254,198 @@ fn run_triple(kind: Kind, c: &Pair) -> R {
     Ok(if n == 0 { Outcome::trivial("no-third") } else { Outcome::pass(&format!("{:?}", ab)) })
 }
 
+// ---- coverage audit ---------------------------------------------------------------------------------
+// Grid of numbers written in many ways: sign x leading zeros x integer digits (other digits than 0/1/9, lengths around
+// the widths of u32/u64/u128/f64 so that an implementation that parses instead of comparing text goes wrong) x fraction
+// (different lengths, trailing zeros, longer than f64 precision).
+
+const G_SIGNS: [&str; 3] = ["", "+", "-"];
+const G_ZEROS: [&str; 4] = ["", "0", "00", "0000000000000000000000000"];
+/// integer digit strings without leading zeros ("" = no further digits: the value of the integer part is zero)
+const G_INTS: [&str; 17] = [
+    "",
+    "5",
+    "7",
+    "15",
+    "51",
+    "55",
+    "100",
+    "4294967295",                               // u32::MAX
+    "4294967296",                               // 2^32
+    "9007199254740992",                         // 2^53
+    "9007199254740993",                         // 2^53 + 1: equal to the former as f64
+    "9223372036854775807",                      // i64::MAX
+    "18446744073709551615",                     // u64::MAX
+    "18446744073709551616",                     // 2^64: wraps to 0 in u64 arithmetic
+    "28446744073709551615",                     // 20 digits, differs from u64::MAX in the first digit only
+    "340282366920938463463374607431768211455",  // u128::MAX
+    "340282366920938463463374607431768211456",  // 2^128
+];
+const G_FRACS: [&str; 10] = ["", ".0", ".5", ".50", ".05", ".49", ".500000000000000000001", ".4999999999999999999999", ".000", ".25"];
+
+fn grid_numbers(kind: Kind, reduced: bool) -> Vec<String> {
+    let mut v = Vec::new();
+    let ints: Vec<&str> = if reduced { vec!["", "5", "15", "51", "18446744073709551615", "18446744073709551616"] } else { G_INTS.to_vec() };
+    let zeros: Vec<&str> = if reduced { vec!["", "00"] } else { G_ZEROS.to_vec() };
+    let fracs: Vec<&str> = match (kind, reduced) {
+        (Kind::Decimal, _) => vec![""],
+        (Kind::Real, true) => vec!["", ".0", ".5", ".50", ".05"],
+        (Kind::Real, false) => G_FRACS.to_vec(),
+    };
+    for sign in G_SIGNS {
+        for z in &zeros {
+            for i in &ints {
+                if z.is_empty() && i.is_empty() {
+                    continue; // no integer digits at all: not a number of the reference grammar
+                }
+                for fr in &fracs {
+                    v.push(format!("{sign}{z}{i}{fr}"));
+                }
+            }
+        }
+    }
+    v
+}
+
+fn gen_grid_pairs(kind: Kind) -> impl Fn(Tier, &mut dyn FnMut(Pair) -> bool) {
+    move |tier, f| {
+        let full = grid_numbers(kind, false);
+        let red = grid_numbers(kind, true);
+        // quick: every number of the full grid against every number of the reduced grid, both orders; thorough: full x full
+        let all_pairs = tier == Tier::Thorough;
+        for a in &full {
+            if all_pairs {
+                for b in &full {
+                    if !f(Pair(a.clone(), b.clone())) {
+                        return;
+                    }
+                }
+            } else {
+                for b in &red {
+                    if !f(Pair(a.clone(), b.clone())) || !f(Pair(b.clone(), a.clone())) {
+                        return;
+                    }
+                }
+            }
+        }
+        if tier == Tier::Thorough && kind == Kind::Real {
+            // same sign/zeros/integer part, every pair of fractions; and same fraction, every pair of integer parts
+            for sign in G_SIGNS {
+                for z in ["", "00"] {
+                    for i in ["5", "18446744073709551615"] {
+                        for fa in G_FRACS {
+                            for sb in G_SIGNS {
+                                for zb in ["", "0"] {
+                                    for fb in G_FRACS {
+                                        if !f(Pair(format!("{sign}{z}{i}{fa}"), format!("{sb}{zb}{i}{fb}"))) {
+                                            return;
+                                        }
+                                    }
+                                }
+                            }
+                        }
+                    }
+                }
+            }
+        }
+    }
+}
+
+/// plain and with_sign entry point on the same pair
+fn run_grid_pair(kind: Kind, c: &Pair) -> R {
+    let o1 = run_pair(kind, false, c)?;
+    let o2 = run_pair(kind, true, c)?;
+    Ok(match (o1, o2) {
+        (Outcome::Pass { class, .. }, _) => {
+            let long = c.0.len().max(c.1.len()) > 20;
+            Outcome::pass(&format!("{class}/{}", if long { ">20chars" } else { "<=20chars" }))
+        }
+        (o, _) => o,
+    })
+}
+
+/// transitivity over the reduced grid: case = (a, b), c ranges over the reduced grid
+fn run_grid_triple(kind: Kind, c: &Pair) -> R {
+    let (a, b) = (c.0.as_str(), c.1.as_str());
+    let Some(ab) = call(kind, a, b) else { return Ok(Outcome::skip("rejected (judged by the pair subject)")) };
+    for cstr in grid_numbers(kind, true) {
+        let (Some(bc), Some(ac)) = (call(kind, b, &cstr), call(kind, a, &cstr)) else { continue };
+        if ab != Ordering::Greater && bc != Ordering::Greater {
+            ensure!(ac != Ordering::Greater, "transitivity", "le_le_gt", "{a:?} <= {b:?} <= {cstr:?} but cmp({a:?},{cstr:?}) = Greater");
+            if ab == Ordering::Less || bc == Ordering::Less {
+                ensure!(ac == Ordering::Less, "transitivity", "lt_le_not_lt", "{a:?} {:?} {b:?} {:?} {cstr:?} but cmp({a:?},{cstr:?}) = {:?}", ab, bc, ac);
+            } else {
+                ensure!(ac == Ordering::Equal, "transitivity", "eq_eq_ne", "{a:?} == {b:?} == {cstr:?} but cmp({a:?},{cstr:?}) = {:?}", ac);
+            }
+        }
+    }
+    Ok(Outcome::pass(&format!("{:?}", ab)))
+}
+
+/// characters that are not part of any number: every string containing one of them must be rejected, whatever the other operand
+const BAD_ALPHA: [char; 9] = ['5', '-', '.', 'a', 'e', ' ', ',', '\u{0663}', '\u{FF15}'];
+
+fn run_invalid(kind: Kind, c: &Pair) -> R {
+    let (a, b) = (c.0.as_str(), c.1.as_str());
+    let (ia, ib) = (valid_impl(a, kind), valid_impl(b, kind));
+    let got = zverif::util::catch(|| (call(kind, a, b), call(kind, b, a))).map_err(|f| crate::bad("rejects_invalid", "panic", format!("cmp({a:?}, {b:?}) panicked: {}", f.detail)))?;
+    if !ia || !ib {
+        ensure!(got.0.is_none() && got.1.is_none(), "rejects_invalid", "foreign_character", "cmp({a:?}, {b:?}) = {:?} / reversed {:?} although an operand is not a number", got.0, got.1);
+        return Ok(Outcome::pass("invalid/None"));
+    }
+    match (parse_ref(a, kind), parse_ref(b, kind)) {
+        (Some(pa), Some(pb)) => {
+            ensure!(got.0 == Some(exact(pa, pb)), "exact_order", format!("{}/other", if kind == Kind::Decimal { "decimal" } else { "realnum" }), "cmp({a:?}, {b:?}) = {:?}", got.0);
+            Ok(Outcome::pass("valid"))
+        }
+        _ => Ok(Outcome::trivial("grammar-difference/no-panic")),
+    }
+}
+
 pub fn register(reg: &mut Registry) {
+    register_small(reg);
+    for (kind, name) in [(Kind::Decimal, "decimal_strcmp"), (Kind::Real, "realnum_strcmp")] {
+        reg.add(fam(
+            &format!("numeric/{name}/grid"),
+            "numbers composed as sign {none,+,-} x leading zeros {0,1,2,25} x integer digits {none,5,7,15,51,55,100, u32::MAX, 2^32, 2^53, 2^53+1, i64::MAX, u64::MAX, 2^64, a 20-digit number differing from u64::MAX in the first digit, u128::MAX, 2^128} x (realnum only) fraction {none,.0,.5,.50,.05,.49,.25,.000, two fractions of 21/22 digits}: quick every number against every number of a reduced grid (6 integer parts x 2 zero runs x 5 fractions x 3 signs) in both orders; thorough all pairs of the grid (2010^2 for the reals), and all pairs of fractions under equal integer parts; both the plain and the _with_sign entry point; exact order, antisymmetry",
+            gen_grid_pairs(kind),
+            move |c| run_grid_pair(kind, c),
+        ));
+        reg.add(fam(
+            &format!("numeric/{name}/grid-triples"),
+            "all triples over the reduced grid of numbers (see .../grid): a<=b and b<=c imply a<=c, strictly if either is strict; case = (a,b), c enumerated inside",
+            move |_t, f: &mut dyn FnMut(Pair) -> bool| {
+                let red = grid_numbers(kind, true);
+                for a in &red {
+                    for b in &red {
+                        if !f(Pair(a.clone(), b.clone())) {
+                            return;
+                        }
+                    }
+                }
+            },
+            move |c| run_grid_triple(kind, c),
+        ));
+        reg.add(fam(
+            &format!("numeric/{name}/invalid-chars"),
+            "all ordered pairs of strings of length <=3 over {'5','-','.','a','e',' ',',', ARABIC-INDIC DIGIT THREE, FULLWIDTH DIGIT FIVE}: None (and no panic) as soon as one operand contains a character that is not part of a number, in both argument orders",
+            |_t, f: &mut dyn FnMut(Pair) -> bool| {
+                let v = strings_over(&BAD_ALPHA, 3);
+                let short = strings_over(&BAD_ALPHA, 2);
+                for a in &v {
+                    for b in &short {
+                        if !f(Pair(a.clone(), b.clone())) {
+                            return;
+                        }
+                    }
+                }
+            },
+            move |c| run_invalid(kind, c),
+        ));
+    }
+}
+
+fn register_small(reg: &mut Registry) {
     let space = "ordered pairs of strings over {'0','1','9','-','+','.'}: thorough all 1555^2 pairs of length <=4; quick all 259^2 pairs of length <=3 plus every length-4 string against every string of length <=2 in both orders. Validity by the reference grammar; exactness, antisymmetry, rejection of invalid operands";
     for (kind, name) in [(Kind::Decimal, "decimal_strcmp"), (Kind::Real, "realnum_strcmp")] {
         reg.add(fam(&format!("numeric/{name}"), space, gen_pairs, move |c| run_pair(kind, false, c)));
